@@ -428,6 +428,7 @@ def same_value(types, t, got, want, tag):
     k = t[0]
     if k == "enum":
         check(int(got) == want, tag + " (enum ordinal) equal")
+        check(type(got).__name__ == t[1], tag + " is an instance of its declared enum")
     elif k == "struct":
         same_obj(types, types[t[1]][1], got, want, tag)
     elif k == "blob":
